@@ -19,6 +19,7 @@ mod props_values;
 mod refsem;
 mod rng;
 mod selftest;
+mod texts;
 
 use serde_json::{json, Value};
 use std::io::{BufRead, Write};
@@ -101,6 +102,12 @@ fn main() {
             let tests = args.get(3).expect("tests.json");
             std::process::exit(selftest::run(truth, tests));
         }
+        "texts" => {
+            let pid = args.get(2).cloned().unwrap_or_default();
+            let seed: u64 = arg_after(&args, "--seed").and_then(|s| s.parse().ok()).unwrap_or(0);
+            let count: usize = arg_after(&args, "--count").and_then(|s| s.parse().ok()).unwrap_or(100);
+            texts::run(&pid, seed, count);
+        }
         "corpus" => {
             let v = corpus::v_all();
             let s = corpus::s_numeric_strings();
@@ -127,12 +134,13 @@ fn replay(rec: &Value) -> i32 {
     if direct {
         c.check(monitor, &rec["rule"], &rec["data"]);
     }
-    if c.violations.is_empty() {
-        // re-run the shard workload and look for the same signature
+    let direct_hit = direct && !c.violations.is_empty();
+    if !direct_hit {
+        c.violations.clear();
         run_property(&mut c);
     }
     observe::capture_stop();
-    let hit: Vec<&ctx::Violation> = c.violations.iter().filter(|v| sig.is_empty() || v.sig == sig || direct).collect();
+    let hit: Vec<&ctx::Violation> = c.violations.iter().filter(|v| direct_hit || sig.is_empty() || v.sig == sig).collect();
     if hit.is_empty() {
         println!("REPLAY property={} sig={} : not reproduced (property holds on the recorded case)", pid, sig);
         0
